@@ -24,8 +24,8 @@ def ofOptRat : Option Q → Json := J.ofOpt J.ofRat
 
 /-- smallest gap between the minimum of `diff` and a competitor that is not bit-identical to it,
     over all iterations of the greedy loop (0 ⇒ an exact tie between different chromosomes: the
-    float computation may break it either way).  `lens = some …` selects the patched loop (full
-    chromosomes do not compete). -/
+    float computation may break it either way).  `lens = some …` is the loop of the tree (full
+    chromosomes do not compete); `none` is the loop before the repair of D10. -/
 def greedyMargin (gl ideal : List Q) (lens : Option (List Nat)) : Nat → List Nat → Q → Q
   | 0, _, m => m
   | k + 1, nb, m =>
@@ -46,7 +46,8 @@ def greedyMargin (gl ideal : List Q) (lens : Option (List Nat)) : Nat → List N
     greedyMargin gl ideal lens k (incrAt ix nb) m'
 
 /-! ### binary64 execution of the layout part of the model
-The same definitions (`nhaploblkChrom`, `haplobin`, `blocksOf`, and their patched variants) are run at
+The same definitions (`nhaploblkChrom`, `haplobin`, `blocksOf`; with `"prerepair": true` in the request their `…Prerepair`
+versions, the code before the repair of D10) are run at
 `Float`: Lean's `Float` is IEEE binary64, the operations and their order are those of the numpy code
 (`genlen.sum()` left to right for < 8 chromosomes, `(n / S) * g`, `nb - ideal`, `j * step + start`), so labels
 and block counts are reproduced bit for bit, ties and boundary markers included. -/
@@ -67,17 +68,18 @@ def readLayout (j : Json) : J.R (List Q × List Nat × List Nat) := do
 def opNblk : J.Op := fun j => do
   let n ← J.field j "nhaploblk" J.nat
   let (genpos, stix, spix) ← readLayout j
-  let patched ← J.fieldD j "patched" J.bool false
+  let prerepair ← J.fieldD j "prerepair" J.bool false
+  let patched := !prerepair
   let chroms := chromSlices genpos stix spix
   let gl := genlen chroms
-  match (if patched then nhaploblkChromFixed n chroms else nhaploblkChrom n chroms) with
+  match (if patched then nhaploblkChrom n chroms else nhaploblkChromPrerepair n chroms) with
   | .error e => pure (errJ e)
   | .ok nb =>
     let lens := if patched then some (chroms.map List.length) else none
     let margin : Q := if Np.sum gl = 0 then 1 else
       greedyMargin gl (ideal n gl) lens (n - gl.length) (List.replicate gl.length 1) 1000000
-    let nbf := match (if patched then nhaploblkChromFixed n (fchroms genpos stix spix)
-                      else nhaploblkChrom n (fchroms genpos stix spix)) with
+    let nbf := match (if patched then nhaploblkChrom n (fchroms genpos stix spix)
+                      else nhaploblkChromPrerepair n (fchroms genpos stix spix)) with
       | .ok v => J.ofList J.ofNat v
       | .error e => errJ e
     pure <| J.obj [("nblk", J.ofList J.ofNat nb), ("margin", J.ofRat margin), ("nblk_f", nbf)]
@@ -86,12 +88,13 @@ def opHaplobin : J.Op := fun j => do
   let nblk ← J.field j "nblk" (J.list J.nat)
   let (genpos, stix, spix) ← readLayout j
   let hbs ← J.fieldOpt j "hbs" (J.mat J.rat)
-  let patched ← J.fieldD j "patched" J.bool false
+  let prerepair ← J.fieldD j "prerepair" J.bool false
+  let patched := !prerepair
   let chroms := chromSlices genpos stix spix
-  let exact := if patched then haplobinFixed nblk chroms else haplobin nblk chroms
-  let given := hbs.map (fun h => if patched then haplobinFixedHB h chroms 0 else haplobinHB h chroms 0)
+  let exact := if patched then haplobin nblk chroms else haplobinPrerepair nblk chroms
+  let given := hbs.map (fun h => if patched then haplobinHB h chroms 0 else haplobinHBPrerepair h chroms 0)
   let fc := fchroms genpos stix spix
-  let flt := if patched then haplobinFixed nblk fc else haplobin nblk fc
+  let flt := if patched then haplobin nblk fc else haplobinPrerepair nblk fc
   pure <| J.obj [("hbin", J.ofList ofOptNat exact), ("hbin_f", J.ofList ofOptNat flt),
                  ("hbin_hb", J.ofOpt (J.ofList ofOptNat) given),
                  ("hbs", J.ofMat J.ofRat (hbounds nblk chroms))]
@@ -122,7 +125,8 @@ def opModel : J.Op := fun j => do
   let xsel ← J.fieldD j "x_ohv" (J.list J.nat) []
   let xpop ← J.fieldD j "x_pop" (J.list J.nat) []
   let nbest ← J.fieldD j "nbest" J.nat 1
-  let patched ← J.fieldD j "patched" J.bool false
+  let prerepair ← J.fieldD j "prerepair" J.bool false
+  let patched := !prerepair
   -- chunk sizes for the transcribed `_calc_ohvmat` loop (`null` = Python's None), weights of the real /
   -- integer / binary encodings
   let mems ← J.fieldD j "mems" (J.list (J.opt J.nat)) []
@@ -131,8 +135,8 @@ def opModel : J.Op := fun j => do
   let exactLayout ← J.fieldD j "exact_layout" J.bool false
   let chroms := chromSlices genpos stix spix
   let fc := fchroms genpos stix spix
-  match (if exactLayout then (if patched then blocksOfFixed n chroms else blocksOf n chroms guard)
-         else (if patched then blocksOfFixed n fc else blocksOf n fc guard)) with
+  match (if exactLayout then (if patched then blocksOf n chroms else blocksOfPrerepair n chroms guard)
+         else (if patched then blocksOf n fc else blocksOfPrerepair n fc guard)) with
   | .error e => pure (errJ e)
   | .ok (nblk, hbin, bnds) =>
     let ucols := ucolsOf u
